@@ -157,7 +157,7 @@ def _worker2(spec):
                 out['counts']['inputs_skipped_reference_step_limit'] += 1; continue
             for mode in modes:
                 # grammars with contextual functors are driven through context_parse
-                if mode == 0 and prop == 'C05' and any(r.ftor == 'x' for r in g.rules): mode = 20
+                if mode == 0 and prop in ('C05', 'C14') and any(r.ftor == 'x' for r in g.rules): mode = 20
                 jobs.append((gi, idx, mode, data))
     rc, recs, _, meta, err = eg.run_jobs(exe, jobs, timeout=cfg.get('timeout', 300))
     byk = {(r.gi, r.idx, r.mode): r for r in recs}
@@ -343,10 +343,11 @@ def judge_c14(spec, gs, tbs, inputs, diags, dumps, maps, tdiffs, byk, jobs, info
         if not parseable(gi, gs, tbs, diags, tdiffs, need_match=False): C['grammars_skipped'] += 1; continue
         tb = tbs[gi]
         for idx, data in enumerate(inputs[gi]):
-            r = byk.get((gi, idx, 0)) or byk.get((gi, idx, 11))
+            r = byk.get((gi, idx, 0)) or byk.get((gi, idx, 11)) or byk.get((gi, idx, 20))
             if r is None: continue
             C['evaluations'] += 1
             if r.mode == 11: C['runs_on_fixed_size_stacks'] += 1
+            if r.mode == 20: C['runs_through_context_parse'] += 1
             nvals = r.events.count('=')
             C['values_tracked'] += nvals
             path = 'success' if r.res == 1 else ('recovery' if '] PARSE: Syntax error' in r.stream and g.has_error() else 'failure')
@@ -396,6 +397,14 @@ def judge_c16(spec, gs, tbs, inputs, diags, dumps, maps, tdiffs, byk, jobs, info
                 if (r.res, r.root, r.events) != (base.res, base.root, base.events):
                     viol(out, g, data, m, 'outcome depends on verbosity/stream: mode %d gives (%s,%s,%s) but plain run gives (%s,%s,%s)' % (
                         m, r.res, r.root, r.events[:120], base.res, base.root, base.events[:120]))
+            # verbose switched on in the middle of a chain of setters on a named options object: the other options must still take effect
+            for mv, mq in ((12, 8), (13, 9)):
+                rv = byk.get((gi, idx, mv)); rq = byk.get((gi, idx, mq))
+                if rv is None or rq is None: continue
+                C['chained_option_setters_compared'] += 1
+                if (rv.res, rv.root, rv.events) != (rq.res, rq.root, rq.events):
+                    viol(out, g, data, mv, 'outcome depends on verbosity: options chained as %s give (%s,%s,%s), the same options without verbose give (%s,%s,%s)' % (
+                        'set_verbose().set_skip_newline(false)' if mv == 12 else 'set_skip_whitespace(false).set_verbose().set_skip_newline(false)', rv.res, rv.root, rv.events[:120], rq.res, rq.root, rq.events[:120]))
             if rs[6].stream != base.stream: viol(out, g, data, 6, 'user stream text %r differs from std::ostream text %r' % (rs[6].stream[:200], base.stream[:200]))
             if rs[5].stream != rs[1].stream: viol(out, g, data, 5, 'verbose user stream text differs from verbose std::ostream text')
             if not lines_subsequence(base.stream, rs[1].stream):
@@ -705,6 +714,17 @@ def judge_c08(spec, gs, tbs, inputs, diags, dumps, maps, tdiffs, byk, jobs, info
                 viol(out, g, data, 0, 'values kept/discarded differ from the documented recovery: observed %s expected %s' % (got[:250], want[:250])); continue
             if r0.stream != ex.stream:
                 viol(out, g, data, 0, 'error reports differ: observed %r expected %r' % (r0.stream[:200], ex.stream[:200])); continue
+            # the same recovery through the fixed-size stacks of cstring_buffer (short texts): same outcome, and no capacity exception where the
+            # documented capacity N + (empty rules) + 1 suffices (beyond it: recorded finding D6, C12's subject)
+            r11 = byk.get((gi, idx, 11))
+            if r11 is not None and r11.res != -3:
+                C['recoveries_through_cstring_buffer'] += 1
+                if r11.res == -1 and 'capacity' in r11.extra:
+                    cap = (len(data) + 1) + sum(1 for r_ in g.rules if len(r_.rhs) == 0) + 1
+                    if ex.res.maxdepth > cap: C['fixed_stack_capacity_exceeded_left_to_C12'] += 1
+                    else: viol(out, g, data, 11, 'recovery through cstring_buffer threw %s although the parse needs %d stack entries and the documented capacity is %d' % (r11.extra[:60], ex.res.maxdepth, cap))
+                elif (r11.res, model.mask_positions(_COPYEV.sub('', r11.events))) != (r0.res, got):
+                    viol(out, g, data, 11, 'recovery through cstring_buffer gives (%s, %s), through string_buffer (%s, %s)' % (r11.res, r11.events[:150], r0.res, r0.events[:150]))
             acts = trace_actions(dg.parse_trace(r1.stream))
             if acts != ex.trace:
                 k = next((i for i in range(min(len(acts), len(ex.trace))) if acts[i] != ex.trace[i]), min(len(acts), len(ex.trace)))
